@@ -235,6 +235,9 @@ def plan_jobs(chk, quota, rnd):
                 jobs.append({"key": [tid + 1, ci + 1, fi + 1], "prog": p, "flat": flat, "cfg": c, "fault": f,
                              "fault_kind": "assert" if (tid + ci + fi) % 3 == 0 else "exc"})
     total = len(jobs)
+    # prog["dupnames"]: every scenario is called "S": a <testcase> cannot be told apart by its name (nobody reading the report
+    # can), so these programs are left to the other checks
+    jobs = [j for j in jobs if not j["prog"].get("dupnames")]
     if total > quota * 8:
         keep = [j for j in jobs if job_class(j)[0]]
         jobs = keep + rnd.sample(jobs, quota * 8)
@@ -689,7 +692,8 @@ def run(chk):
         "run-cluster plan with --junit, switch = cases again with the behave.reporter.junit.* userdata switches; every TESTS-*.xml "
         "parsed by xml.dom.minidom; distinct = distinct (program, cfg, switches, final statuses, raised hooks) among rows with test cases")
     chk.assumptions += [
-        "C16 run: scenario names S<id> / O<id> -- @<block>.<row> identify the scenario a <testcase> stands for (names are the renderer's)",
+        "C16 run: a <testcase> stands for the scenario of the parsed model (outline rows included) that carries its name, identified "
+        "by file and line; programs in which every scenario has the same name (prog dupnames) are not run by this check",
         "C16 run: an entry names a step when its message or text contains that step's text (fbg k / rbg k / own k), a hook when it "
         "contains HOOK-ERROR",
         "C16 run: a wholly skipped feature with show_skipped off may have no document; features for which the reporter was never "
